@@ -26,6 +26,7 @@ type capCore struct {
 	kindSeen  int
 	fired     string
 	faultedAt int    // index in calls of the call that failed
+	live      int    // handles handed out and not yet closed
 	fileMode  string // "all" | "base" | "only:<Iface>"
 	short     bool   // buggify: a failing Write accepts a prefix first
 	// readShape (buggify, legal io.Reader behaviour): 0 as the inner file, 1 at most half the buffer,
@@ -310,6 +311,9 @@ func (f *capFileBase) Close() error {
 	if f.writer && !f.closed && f.c.writing != nil {
 		f.c.writing[f.name]--
 	}
+	if !f.closed {
+		f.c.live-- // (an attempt counts: a handle whose Close failed is not one the caller forgot)
+	}
 	f.closed = true
 	kind := "file.Close"
 	if f.writer {
@@ -454,6 +458,7 @@ func (f capFileSync) Sync() error { return f.sync() }
 
 func (c *capCore) wrapFile(inner hackpadfs.File, name string) hackpadfs.File {
 	b := &capFileBase{c: c, inner: inner, name: name}
+	c.live++
 	switch c.fileMode {
 	case "", "all":
 		return capFileAll{b}
@@ -627,6 +632,11 @@ func runC08(t *T) {
 	}
 	want := call(twin, coreT)
 	got := call(masked, coreM)
+	if coreM.live != 0 && o.Kind != "Sub" {
+		// part of the final state: with all interfaces exposed no handle is left open when the helper returns (the one
+		// Create/OpenFile hand out is closed by the harness above); a fallback that opens a file to do its work closes it
+		t.Fail("state", "C08:"+helper+":handle-left-open:exposed="+capKey(mask), fmt.Sprintf("%s on a file system exposing only %v (of %v) returned with %d handle(s) still open; primitive calls: %v", o, mask, rel, coreM.live, coreM.calls))
+	}
 	t.Logf("masked=%s (%v) twin=%s; primitive calls seen: %v; fault fired: %q", errClass(got.Err), got.Err, errClass(want.Err), coreM.calls, coreM.fired)
 	sm := takeSnapshot(innerM, snapOpts{Special: true})
 	st := takeSnapshot(innerT, snapOpts{Special: true})
